@@ -147,6 +147,7 @@ func runC11(sc c11Scn) (c vfCase) {
 		var whole []byte
 		for f := 0; f < m.Frags; f++ {
 			pl := vfPayload(mi*16+f, m.Len)
+			pl[0] = byte(mi*8 + f) // messages must be distinguishable even when fragments are 1 byte long
 			whole = append(whole, pl...)
 			cp := &chunkPayloadData{streamIdentifier: 1, tsn: tsn, unordered: m.Unord, beginningFragment: f == 0, endingFragment: f == m.Frags-1,
 				payloadType: PayloadProtocolIdentifier(100 + mi), userData: pl, streamSequenceNumber: uint16(seq)}
